@@ -16,6 +16,7 @@ package main
 import (
 	"fmt"
 	"math/rand"
+	"os"
 	"runtime"
 	"sort"
 	"strings"
@@ -23,12 +24,14 @@ import (
 	"sync/atomic"
 	"time"
 
+	"verif/lib/rig"
 	"verif/lib/vlib"
 )
 
 var (
-	run   *vlib.Run
-	evals atomic.Int64
+	run    *vlib.Run
+	evals  atomic.Int64
+	canary *rig.Canary
 )
 
 // pool runs fn(i) for i in [0,n) on k goroutines; worker index is passed along.
@@ -65,9 +68,20 @@ func hasTiming(fs []finding) bool {
 func report(witness func(f finding) any, attempt func() ([]finding, caseStats)) caseStats {
 	fs, st := attempt()
 	if hasTiming(fs) {
+		t0 := time.Now()
 		fs2, st2 := attempt()
 		if !hasTiming(fs2) {
 			run.Inconclusive("packets-not-seen-in-time-not-reproduced")
+		} else if canary.WorstSince(t0) > 250*time.Millisecond {
+			// the machine was stalled while the packets were awaited: no verdict
+			run.Inconclusive("packets-not-seen-in-time-while-scheduler-late")
+			kept := fs2[:0]
+			for _, f := range fs2 {
+				if !f.Timing {
+					kept = append(kept, f)
+				}
+			}
+			fs2 = kept
 		}
 		fs, st = fs2, st2
 	}
@@ -119,6 +133,8 @@ func setOrders(c *urlCase, r *rand.Rand) {
 
 func main() {
 	run = vlib.Start("C20", "exploration")
+	canary = rig.StartCanary()
+	defer canary.Stop()
 	auths := []string{"ipv4", "localhost"}
 	listenIP := "127.0.0.1"
 	if ipv6Loopback() {
@@ -192,7 +208,9 @@ func main() {
 			run.Sample(map[string]any{"url": c.build(workers[g].ts.Port), "expected_path": pctDecode(c.Path), "expected_query": c.Query, "medias": c.Medias, "features": feats})
 		}
 	})
+	phase("part 1 main batch")
 	kwg.Wait()
+	phase("keep-alive batch")
 	keys := make([]string, 0, len(featureCount))
 	for k := range featureCount {
 		keys = append(keys, k)
@@ -204,7 +222,7 @@ func main() {
 	run.Count("urls", int64(nURL))
 
 	// ---- part 2b: inverse (raw peer, real server) -------------------------------------------------
-	pool(nW, run.Pick(1500, 20000), func(g, i int) {
+	pool(nW, run.Pick(1500, 15000), func(g, i int) {
 		r := run.Rand("inverse", i)
 		c := genCase(r, auths)
 		ic := inverseCase{Kind: "inverse", U: c, Media: r.Intn(c.Medias)}
@@ -218,9 +236,10 @@ func main() {
 	for _, w := range workers {
 		w.close()
 	}
+	phase("part 2b inverse")
 
 	// ---- part 2a: control styles (scripted server, real client) -------------------------------------
-	pool(nW, run.Pick(1500, 20000), func(_, i int) {
+	pool(nW, run.Pick(1500, 15000), func(_, i int) {
 		r := run.Rand("style", i)
 		sc := genStyleCase(r)
 		evals.Add(1)
@@ -234,7 +253,15 @@ func main() {
 		}
 	})
 
+	phase("part 2a styles")
 	finish()
+}
+
+var phaseT = time.Now()
+
+func phase(name string) {
+	fmt.Fprintf(os.Stderr, "phase %s: %.1fs\n", name, time.Since(phaseT).Seconds())
+	phaseT = time.Now()
 }
 
 func finish() {
